@@ -57,6 +57,7 @@ impl AdaptiveFeeTier {
     requires constraints_InitializePoolWithAdaptiveFee(old(ctx.accounts)), old(ctx.accounts).adaptive_fee_tier.data.tick_spacing > 0, // adaptive fee tiers have a non-zero spacing (AdaptiveFeeTier::initialize)
         old(ctx.accounts).adaptive_fee_tier.data.is_valid_initialize_pool_authority_spec(old(ctx.accounts).initialize_pool_authority.skey()), // the one clause outside the K-rules' expression subset (a call with a `.key()` argument), restated by hand
     ensures
+        r is Ok ==> old(ctx.accounts).token_badge_a.skey() == crate::anchor_shim::pda_of(seq![crate::anchor_shim::Seed::Lit(0x746f6b656e5f6261646765int), crate::anchor_shim::Seed::Key(old(ctx.accounts).whirlpools_config.skey()), crate::anchor_shim::Seed::Key(old(ctx.accounts).token_mint_a.skey())]) && old(ctx.accounts).token_badge_b.skey() == crate::anchor_shim::pda_of(seq![crate::anchor_shim::Seed::Lit(0x746f6b656e5f6261646765int), crate::anchor_shim::Seed::Key(old(ctx.accounts).whirlpools_config.skey()), crate::anchor_shim::Seed::Key(old(ctx.accounts).token_mint_b.skey())]), // the badge accounts examined are the ones derived from ("token_badge", this config, that mint)
         r is Ok ==> old(ctx.accounts).initialize_pool_authority.info.is_signer
             && old(ctx.accounts).adaptive_fee_tier.data.is_valid_initialize_pool_authority_spec(old(ctx.accounts).initialize_pool_authority.skey()), //# C04
         r is Ok ==> old(ctx.accounts).adaptive_fee_tier.data.whirlpools_config == old(ctx.accounts).whirlpools_config.k, //# C19 C04
